@@ -95,8 +95,14 @@ def r_invalidate(idx, rep, rule="R-INVALIDATE", relevant_to=None, floor=4):
         # straight-line helper methods called on self (`self._invalidate_caches()`) are read as the assignments they make
         for st in iter_stmts(normalise_statements(idx, m.module, m.node.body, cls=ci)):
             if isinstance(st, ast.Assign):
-                for t in st.targets:
+                from ..core.astutil import assign_pairs
+                for t, v_ in assign_pairs(st):
                     if isinstance(t, ast.Attribute) and u(t.value) == "self":
+                        # element-wise for tuple assignments (`self._a, self._b = None, None`): a statement-like record with the element's own value
+                        rec_ = ast.copy_location(ast.Assign(targets=[t], value=v_), st)
+                        assigned[t.attr] = rec_
+                for t in st.targets:
+                    if isinstance(t, ast.Attribute) and u(t.value) == "self" and t.attr not in assigned:
                         assigned[t.attr] = st
         for a, st in assigned.items():
             if a in caches:
